@@ -135,7 +135,7 @@ fn main() {
     let max_pairs: usize = args
         .extra_u64("max-pairs")
         .map(|v| v as usize)
-        .unwrap_or(if args.thorough() { 12 } else { 9 });
+        .unwrap_or(if args.thorough() { 13 } else { 9 });
     // case id = word length (number of pairs) so that the work is sharded by length
     let ev = run_sharded(&args, (max_pairs + 1) as u64 * 3, |case, ev, _log| {
         let len = (case / 3) as usize;
